@@ -2,6 +2,7 @@ package main
 
 import (
 	"bytes"
+	"sync"
 
 	"github.com/go-i2p/common/data"
 )
@@ -59,6 +60,33 @@ func runChain(calls []chainCall, rounds int) Res {
 			}
 		}
 	}
+	// finally several goroutines make the same calls at the same time: every answer must be the one obtained alone
+	// (pure functions share no scratch state; run before the kept slices are looked at again)
+	var cm sync.Mutex
+	concurrentBad := map[int]bool{}
+	var wg sync.WaitGroup
+	gate := make(chan struct{})
+	for g := 0; g < 8; g++ {
+		wg.Add(1)
+		go func(g int) {
+			defer wg.Done()
+			defer func() { recover() }()
+			<-gate
+			for r := 0; r < 40; r++ {
+				for k := range calls {
+					i := (k + g*3 + r) % n
+					b, ok := calls[i]()
+					if ok != firstOK[i] || !bytes.Equal(b, firstCopy[i]) {
+						cm.Lock()
+						concurrentBad[i] = true
+						cm.Unlock()
+					}
+				}
+			}
+		}(g)
+	}
+	close(gate)
+	wg.Wait()
 	idx := func(m map[int]bool) []int {
 		out := []int{}
 		for i := 0; i < n; i++ {
@@ -72,7 +100,7 @@ func runChain(calls []chainCall, rounds int) Res {
 	for i := range calls {
 		first = append(first, map[string]any{"ok": firstOK[i], "out": ints(firstCopy[i])})
 	}
-	return Res{"ncalls": n * rounds, "changed": idx(changed), "differs": idx(differs), "spare": spare, "first": first}
+	return Res{"ncalls": n * rounds, "changed": idx(changed), "differs": idx(differs), "spare": spare, "first": first, "concurrent_bad": idx(concurrentBad)}
 }
 
 func init() {
@@ -111,6 +139,12 @@ func init() {
 			case "int":
 				fn, v, sz := im.Str("fn"), im.Int("value"), im.Int("size")
 				calls = append(calls, func() ([]byte, bool) { ok, b := encInt(fn, v, sz); return b, ok })
+			case "intdec":
+				fn, in := im.Str("fn"), im.Bytes("in")
+				calls = append(calls, func() ([]byte, bool) {
+					ok, v := decInt(fn, append([]byte{}, in...))
+					return be8(v), ok
+				})
 			case "string":
 				fn, in := im.Str("fn"), string(im.Bytes("in"))
 				calls = append(calls, func() ([]byte, bool) {
@@ -135,7 +169,7 @@ func init() {
 			}
 		}
 		if len(calls) == 0 {
-			return Res{"ncalls": 0, "changed": []int{}, "differs": []int{}, "spare": 0, "first": []any{}}
+			return Res{"ncalls": 0, "changed": []int{}, "differs": []int{}, "spare": 0, "first": []any{}, "concurrent_bad": []int{}}
 		}
 		return runChain(calls, 6)
 	})
